@@ -95,6 +95,7 @@ func verifyFunction(P *Program, key string) (res *FuncResult) {
 	x.stack = nil
 	if ctr != nil {
 		bvals := x.bindingValues(st, fn, bindings)
+		x.clauseFn = fn
 		for _, cl := range ctr.Requires {
 			cargs := x.clauseArgs(ctr, cl, args, bvals, nil, nil)
 			g := x.evalClauseFn(cl.Fn, cargs, st, st)
@@ -205,9 +206,9 @@ func cmdVerify(args []string) {
 		_ = dump
 		n, ok := 0, 0
 		for _, o := range r.Obls {
-			if o.Kind == "vacuity" {
+			if o.Kind == "vacuity" || o.Kind == "cover" {
 				if o.Status == "unsat" {
-					fmt.Printf("  VACUOUS precondition in %s\n", k)
+					fmt.Printf("  VACUOUS %s (unreachable under the assumptions) %s\n", o.Name, o.Src)
 					bad++
 				}
 				continue
